@@ -35,6 +35,8 @@ type MixParams struct {
 	NoEmptyMember  bool // K-C06-empty-member: SRem/SPop of the empty set member remove nothing
 	NoEmptyZKey    bool
 	KVTTL          bool
+	ViewWrites     bool     // read-only transactions also call mutating APIs (must fail, no effect)
+	AfterP         float64  // probability that calls are made on the handle of a finished transaction
 	OneBucketPerTx bool     // C04: every transaction touches one bucket only
 	Buckets        []string // override bucket names (C04)
 }
@@ -365,12 +367,24 @@ func Mix(r *core.Rng, p MixParams) *prog.Program {
 				st.End = "fnerr"
 			}
 		}
+		if p.AfterP > 0 && r.Bool(p.AfterP) {
+			for j := r.Range(1, 3); j > 0; j-- {
+				op, _, _ := g.mixOp(ds[r.Intn(len(ds))], r.Bool(0.7), p, kp)
+				st.After = append(st.After, op)
+			}
+		}
 		pg.Steps = append(pg.Steps, st)
 		if p.Views && r.Bool(0.5) {
 			v := prog.Step{K: prog.SView}
 			for j := r.Range(1, 5); j > 0; j-- {
-				op, _, _ := g.mixOp(ds[r.Intn(len(ds))], false, p, kp)
+				op, _, _ := g.mixOp(ds[r.Intn(len(ds))], p.ViewWrites && r.Bool(0.4), p, kp)
 				v.Ops = append(v.Ops, op)
+			}
+			if p.AfterP > 0 && r.Bool(p.AfterP) {
+				for j := r.Range(1, 3); j > 0; j-- {
+					op, _, _ := g.mixOp(ds[r.Intn(len(ds))], r.Bool(0.5), p, kp)
+					v.After = append(v.After, op)
+				}
 			}
 			pg.Steps = append(pg.Steps, v)
 		}
